@@ -160,6 +160,19 @@ def k_refuse(ctx, what, value):
         ctx.fail("hdr.refusal", "accepted", what, case, observed=res)
     elif not isinstance(res, ValueError):
         ctx.fail("hdr.refusal", "wrong_error", f"{what}/{type(res).__name__}", case, error=repr(res))
+    if what in ("data_len_setter", "id_widths_setter"):
+        # a refused value is not applied: the header used afterwards still encodes what it held before the refused call
+        g = dict(pdu_type=1, direction=1, mode=1, crc=1, large=0, data_len=77, segctrl=0, segmeta=1, idw=2, seqw=4, src=0x0102, seq=0x01020304, dst=0x0506)
+        h, _ = _mk_header(g)
+        before = bytes(h.pack())
+        if what == "data_len_setter":
+            ok2, e = attempt(setattr, h, "pdu_data_field_len", value)
+        else:
+            ok2, e = attempt(h.set_entity_ids, X.ByteFieldGenerator.from_int(value[0], 1), X.ByteFieldGenerator.from_int(value[1], 1))
+        if not ok2:
+            ok3, after = attempt(lambda: bytes(h.pack()))
+            ctx.check("hdr.refusal", ok3 and after == before and h.pdu_data_field_len == 77 and h.packet_len == len(before) + 77, "refused_value_applied_anyway", what, case,
+                      before=before, after=after if ok3 else repr(after), data_len_view=h.pdu_data_field_len)
 
 
 def k_reuse(ctx, seed, start="ctor"):
